@@ -3,6 +3,6 @@ CONSTANTS
   Keys = {"R-C1", "G-C1", "G-C2"}
   MaxEnv = 4
   AsCodedScan = FALSE
-  AsCodedSubscribe = FALSE
-INVARIANTS TypeOK NeverStaleUnnoticed
-PROPERTIES Quiesce StopStopsAll
+  AsCodedSubscribe = TRUE
+INVARIANTS TypeOK
+PROPERTIES Quiesce
